@@ -45,6 +45,20 @@ class VCResult:
         self.raw = raw
 
 
+class _Snap:
+    """What prove() needs from a state, frozen at the time of the VC."""
+
+    def __init__(self, st, eng):
+        self.pc = list(st.pc)
+        self.qhyps = list(st.qhyps)
+        self.notes = list(st.notes)
+        c = eng.cur_contract
+        self.full = st.clone() if (c is not None and (getattr(c, "replay_", None) or getattr(c, "replays_", None))) else None
+
+    def clone(self):
+        return self.full.clone() if self.full is not None else self
+
+
 class Ctl:
     """Spec-evaluation context."""
 
@@ -108,7 +122,16 @@ class Engine:
         return []
 
     def prove(self, st, goal, name, prop=None, kind="obligation", site=None):
-        """Emit and discharge one VC: pc /\\ instantiated hyps |= goal."""
+        """Emit and discharge one VC: pc /\\ instantiated hyps |= goal.
+        Inside a loop attempt (whose results may be discarded) the VC is
+        only recorded and discharged when the attempt is kept."""
+        if getattr(self, "defer_depth", 0) > 0:
+            snap = _Snap(st, self)
+            ctx = (self.cur_key, self.cur_contract, getattr(self, "cur_env", None), self.ctl)
+            ph = VCResult(name, prop, self.cur_key, "deferred", "", 0.0, list(st.notes), None, kind, site)
+            ph.thunk = (snap, goal, name, prop, kind, site, ctx)
+            self.results.append(ph)
+            return ph
         goal = z3.simplify(goal) if not isinstance(goal, bool) else z3.BoolVal(goal)
         neg = z3.Not(goal)
         if z3.is_true(goal):
@@ -118,16 +141,50 @@ class Engine:
             v = solve.check(st.pc + insts + [neg])
         r = VCResult(name, prop, self.cur_key, v.status, v.backend, v.secs,
                      list(st.notes), v.model, kind, site, v.raw)
-        if v.status == "sat":
+        if v.status in ("sat", "sat-abstract"):
             r.model_txt = self._model_text(v.model, st)
-            r.replay_inputs = self._replay_inputs(v.model, st, name)
+            self._subst = v.subst
+            try:
+                r.replay_inputs = self._replay_inputs(v.model, st, name)
+            finally:
+                self._subst = None
+        if v.status == "unknown":
+            # undecided: a harness may still search natively for a failing input (never a violation by itself)
+            c = self.cur_contract
+            for match, harness_, inputs_ in (getattr(c, "replays_", []) if c is not None else []):
+                if match in name:
+                    r.replay_inputs = {"harness": harness_, "inputs": {"__enumerate__": True}}
+                    break
         self.results.append(r)
         return r
+
+    def discharge_deferred(self, results):
+        """Discharge the VCs recorded during a kept loop attempt."""
+        out = []
+        for r in results:
+            th = getattr(r, "thunk", None)
+            if th is None:
+                out.append(r)
+                continue
+            snap, goal, name, prop, kind, site, ctx = th
+            saved = (self.cur_key, self.cur_contract, getattr(self, "cur_env", None), self.ctl, self.results, getattr(self, "defer_depth", 0))
+            self.cur_key, self.cur_contract, self.cur_env, self.ctl = ctx
+            self.results = []
+            self.defer_depth = 0
+            try:
+                target = snap.full if snap.full is not None else snap
+                self.prove(target, goal, name, prop, kind, site)
+                out += self.results
+            finally:
+                self.cur_key, self.cur_contract, self.cur_env, self.ctl, self.results, self.defer_depth = saved
+        return out
 
     def _replay_inputs(self, model, st, name=""):
         """Concrete inputs for the native replay harness of the contract
         under verification, read off the counter-model."""
         c = self.cur_contract
+        if not hasattr(st, "frames"):
+            return None
         spec = getattr(c, "replay_", None) if c is not None else None
         for match, harness_, inputs_ in (getattr(c, "replays_", []) if c is not None else []):
             if match in name:
@@ -153,7 +210,8 @@ class Engine:
         return {"harness": harness, "inputs": out}
 
     def concretize(self, v, model, st):
-        ev = lambda t: model.eval(t, model_completion=True)
+        sub = getattr(self, "_subst", None)
+        ev = lambda t: model.eval(z3.substitute(t, *sub) if sub else t, model_completion=True)
         if isinstance(v, VInt):
             return ev(v.t).as_long()
         if isinstance(v, VBool):
